@@ -149,6 +149,24 @@ func cardMultigetDoc(r *rt.Rand, p davPaths) string {
 }
 
 const icalDoc = "BEGIN:VCALENDAR\r\nVERSION:2.0\r\nPRODID:-//vsim//EN\r\nBEGIN:VEVENT\r\nUID:put-1@example.org\r\nDTSTAMP:20240101T100000Z\r\nDTSTART:20240102T100000Z\r\nDTEND:20240102T110000Z\r\nSUMMARY:Uploaded; with\\, escapes\r\nEND:VEVENT\r\nEND:VCALENDAR"
+// Well-formed objects of other shapes than the two above: what a client may
+// legally store (a vCard needs no UID, EMAIL or N; a calendar object may be a
+// to-do, an all-day or recurring event, or carry a VTIMEZONE next to its event).
+var validVcardDocs = []string{
+	vcardDoc,
+	"BEGIN:VCARD\r\nVERSION:3.0\r\nFN:No Uid\r\nN:Uid;No;;;\r\nEND:VCARD",
+	"BEGIN:VCARD\r\nVERSION:4.0\r\nFN:Four Oh\r\nUID:urn:uid:put-4\r\nTEL;VALUE=uri;TYPE=\"voice,home\":tel:+1-555-555-5555\r\nEND:VCARD",
+	"BEGIN:VCARD\r\nVERSION:3.0\r\nFN:Put Person\r\nUID:urn:uid:Ann\r\nNOTE:same UID as a stored card\r\nEND:VCARD",
+	"BEGIN:VCARD\r\nVERSION:3.0\r\nFN:Only a name\r\nEND:VCARD",
+}
+
+var validIcalDocs = []string{
+	icalDoc,
+	"BEGIN:VCALENDAR\r\nVERSION:2.0\r\nPRODID:-//vsim//EN\r\nBEGIN:VTODO\r\nUID:put-todo@example.org\r\nDTSTAMP:20240101T100000Z\r\nSUMMARY:A to-do\r\nEND:VTODO\r\nEND:VCALENDAR",
+	"BEGIN:VCALENDAR\r\nVERSION:2.0\r\nPRODID:-//vsim//EN\r\nBEGIN:VEVENT\r\nUID:put-allday@example.org\r\nDTSTAMP:20240101T100000Z\r\nDTSTART;VALUE=DATE:20240102\r\nRRULE:FREQ=WEEKLY;COUNT=3\r\nEND:VEVENT\r\nEND:VCALENDAR",
+	"BEGIN:VCALENDAR\r\nVERSION:2.0\r\nPRODID:-//vsim//EN\r\nBEGIN:VTIMEZONE\r\nTZID:Europe/Paris\r\nBEGIN:STANDARD\r\nDTSTART:19701025T030000\r\nTZOFFSETFROM:+0200\r\nTZOFFSETTO:+0100\r\nEND:STANDARD\r\nEND:VTIMEZONE\r\nBEGIN:VEVENT\r\nUID:uid-0-0\r\nDTSTAMP:20240101T100000Z\r\nDTSTART;TZID=Europe/Paris:20240102T100000\r\nEND:VEVENT\r\nEND:VCALENDAR",
+}
+
 const vcardDoc = "BEGIN:VCARD\r\nVERSION:3.0\r\nFN:Put Person\r\nN:Person;Put;;;\r\nEMAIL;TYPE=home:put@example.org\r\nUID:urn:uid:put-1\r\nEND:VCARD"
 
 // malformedDocs are hand-written requests that are malformed by the rules the
@@ -175,6 +193,10 @@ var malformedDocs = []malformedDoc{
 	{"report-not-xml-type", "caldav", "REPORT", "coll", `{"json": true}`, "application/json"},
 	{"put-not-ical", "caldav", "PUT", "obj", "this is not a calendar", "text/calendar"},
 	{"put-ical-no-end", "caldav", "PUT", "obj", "BEGIN:VCALENDAR\r\nVERSION:2.0\r\nBEGIN:VEVENT\r\nUID:x\r\n", "text/calendar"},
+	{"put-ical-param-without-value-part", "caldav", "PUT", "obj", "BEGIN:VCALENDAR\r\nVERSION:2.0\r\nBEGIN:VEVENT\r\nUID:x\r\nDTSTART;VALUE=DATE\r\nEND:VEVENT\r\nEND:VCALENDAR\r\n", "text/calendar"},
+	{"put-ical-junk-after-quoted-param", "caldav", "PUT", "obj", "BEGIN:VCALENDAR\r\nVERSION:2.0\r\nBEGIN:VEVENT\r\nUID:x\r\nATTENDEE;CN=\"Ann\"x:mailto:a@example.org\r\nEND:VEVENT\r\nEND:VCALENDAR\r\n", "text/calendar"},
+	{"put-ical-end-without-begin", "caldav", "PUT", "obj", "END:VCALENDAR\r\n", "text/calendar"},
+	{"put-ical-wrong-end", "caldav", "PUT", "obj", "BEGIN:VCALENDAR\r\nVERSION:2.0\r\nBEGIN:VEVENT\r\nUID:x\r\nEND:VTODO\r\nEND:VCALENDAR\r\n", "text/calendar"},
 	{"put-wrong-content-type", "caldav", "PUT", "obj", icalDoc, "text/plain"},
 	{"put-malformed-content-type", "caldav", "PUT", "obj", icalDoc, "text/calendar; charset"},
 	{"mkcol-wrong-resourcetype", "caldav", "MKCOL", "newcoll", xmlHdr + `<D:mkcol xmlns:D="DAV:"><D:set><D:prop><D:resourcetype><D:collection/></D:resourcetype></D:prop></D:set></D:mkcol>`, "application/xml"},
@@ -194,6 +216,7 @@ var malformedDocs = []malformedDoc{
 	{"report-wrong-root", "carddav", "REPORT", "coll", xmlHdr + `<D:sync-collection xmlns:D="DAV:"><D:sync-token/><D:sync-level>1</D:sync-level><D:prop><D:getetag/></D:prop></D:sync-collection>`, "application/xml"},
 	{"put-not-vcard", "carddav", "PUT", "obj", "this is not a card", "text/vcard"},
 	{"put-vcard-no-end", "carddav", "PUT", "obj", "BEGIN:VCARD\r\nVERSION:3.0\r\nFN:x\r\n", "text/vcard"},
+	{"put-vcard-wrong-end", "carddav", "PUT", "obj", "BEGIN:VCARD\r\nVERSION:3.0\r\nFN:x\r\nEND:VCALENDAR\r\n", "text/vcard"},
 	{"put-wrong-content-type", "carddav", "PUT", "obj", vcardDoc, "application/json"},
 	{"mkcol-wrong-resourcetype", "carddav", "MKCOL", "newcoll", xmlHdr + `<D:mkcol xmlns:D="DAV:"><D:set><D:prop><D:resourcetype><D:collection/></D:resourcetype></D:prop></D:set></D:mkcol>`, "application/xml"},
 	{"propfind-none-of-three", "carddav", "PROPFIND", "coll", xmlHdr + `<D:propfind xmlns:D="DAV:"/>`, "application/xml"},
@@ -332,12 +355,20 @@ func davRequest(r *rt.Rand, server string, p davPaths) *Step {
 		case 5:
 			st.Method, st.Target = "PUT", rt.Pick(r, []string{p.obj, p.missingObj, p.missingObj, p.coll})
 			if server == "caldav" {
-				setBody("put-ical", icalDoc+"\r\n")
-				st.DocEnd = len(icalDoc)
+				doc := icalDoc
+				if r.Chance(0.4) {
+					doc = rt.Pick(r, validIcalDocs)
+				}
+				setBody("put-ical", doc+"\r\n")
+				st.DocEnd = len(doc)
 				st.set("Content-Type", rt.Pick(r, []string{"text/calendar", "text/calendar; charset=utf-8"}))
 			} else {
-				setBody("put-vcard", vcardDoc+"\r\n")
-				st.DocEnd = len(vcardDoc)
+				doc := vcardDoc
+				if r.Chance(0.4) {
+					doc = rt.Pick(r, validVcardDocs)
+				}
+				setBody("put-vcard", doc+"\r\n")
+				st.DocEnd = len(doc)
 				st.set("Content-Type", rt.Pick(r, []string{"text/vcard", "text/vcard; charset=utf-8"}))
 			}
 			if r.Chance(0.4) {
